@@ -769,10 +769,13 @@ class DnsRecordTxtValueSpfDirectiveIp4(DnsRecordTxtValueSpfDirectiveBase):
         qualifier = parser.get('qualifier', None)
         ipv4_network = cls._parse_ip_network(parser)
 
-        return cls(
-            qualifier=qualifier,
-            ipv4_network=ipv4_network,
-        ), parser.parsed_length
+        try:
+            return cls(
+                qualifier=qualifier,
+                ipv4_network=ipv4_network,
+            ), parser.parsed_length
+        except (ValueError, TypeError) as e:
+            six.raise_from(InvalidValue(ipv4_network, cls, 'ipv4_network'), e)
 
     def compose(self):
         composer = self._compose_qualifier_and_mechanism_name(self.qualifier)
@@ -804,10 +807,13 @@ class DnsRecordTxtValueSpfDirectiveIp6(DnsRecordTxtValueSpfDirectiveBase):
         qualifier = parser.get('qualifier', None)
         ipv6_network = cls._parse_ip_network(parser)
 
-        return cls(
-            qualifier=qualifier,
-            ipv6_network=ipv6_network,
-        ), parser.parsed_length
+        try:
+            return cls(
+                qualifier=qualifier,
+                ipv6_network=ipv6_network,
+            ), parser.parsed_length
+        except (ValueError, TypeError) as e:
+            six.raise_from(InvalidValue(ipv6_network, cls, 'ipv6_network'), e)
 
     def compose(self):
         composer = self._compose_qualifier_and_mechanism_name(self.qualifier)
